@@ -23,6 +23,81 @@ Proof. induction a as [|e a IH]; cbn [app hmax fold_right]; [reflexivity|]. fold
 Lemma hmax_cons k c r : hmax ((k, c) :: r) = Nat.max (height c) (hmax r).
 Proof. reflexivity. Qed.
 
+
+(* ---------- page accounting: occurrence counts ---------- *)
+Fixpoint cnt (p : N) (l : list N) : nat :=
+  match l with [] => O | x :: r => ((if N.eqb x p then 1 else 0) + cnt p r)%nat end.
+Lemma cnt_app p a b : cnt p (a ++ b) = (cnt p a + cnt p b)%nat.
+Proof. induction a as [|x a IH]; cbn [app cnt]; [reflexivity|]. rewrite IH. lia. Qed.
+
+Definition pidsk (cs : list (N * tree)) : list N := flat_map (fun e => pids (snd e)) cs.
+Lemma pids_node pid cs : pids (Node pid cs) = pid :: pidsk cs.
+Proof. reflexivity. Qed.
+Lemma pidsk_app a b : pidsk (a ++ b) = pidsk a ++ pidsk b.
+Proof. apply flat_map_app. Qed.
+Lemma pidsk_cons k c r : pidsk ((k, c) :: r) = pids c ++ pidsk r.
+Proof. reflexivity. Qed.
+
+(* every page id below nextPage is either live (in L) or on the free list, exactly once *)
+Definition pool (a : alloc) (L : list N) : Prop :=
+  1 <= nextPage a /\
+  forall p, cnt p (L ++ freeList a) = if (1 <=? p) && (p <? nextPage a) then 1%nat else 0%nat.
+
+(* the allocator/stat invariant, with the live pages L and the number n of leaf entries as parameters *)
+Definition AInv (ps : N) (a : alloc) (L : list N) (n : nat) : Prop :=
+  pool a L /\ leafKeys a = Z.of_nat n /\ pagesFree a = Z.of_nat (length (freeList a)) /\
+  8 <= offset a /\ offset a <= curSz a /\ nextPage a * ps <= data_len a.
+
+Lemma AInv_perm ps a L L' n n' : (forall p, cnt p L = cnt p L') -> n = n' -> AInv ps a L n -> AInv ps a L' n'.
+Proof.
+  intros HL -> (Hp & H). split; [|exact H]. destruct Hp as [H1 H2]. split; [exact H1|].
+  intros p. rewrite cnt_app, <- HL, <- cnt_app. apply H2.
+Qed.
+
+Lemma buf_grow_ge cur off n : off <= cur -> off + n <= buf_grow cur off n.
+Proof.
+  intros H. unfold buf_grow. destruct (N.ltb_spec (off + n) cur); [lia|].
+  destruct (one_gb <? cur + n); destruct (N.ltb_spec one_gb n); destruct (N.ltb_spec (cur + n) n); lia.
+Qed.
+
+Lemma new_node_AInv ps a L n : AInv ps a L n ->
+  AInv ps (fst (new_node ps a)) (snd (new_node ps a) :: L) n.
+Proof.
+  intros ((H1 & Hc) & Hlk & Hpf & Ho1 & Ho2 & Hd). unfold new_node.
+  destruct (freeList a) as [|q rest] eqn:Ef.
+  - cbn [fst snd]. set (np := nextPage a) in *.
+    assert (Hpool : forall a', nextPage a' = np + 1 -> freeList a' = [] -> pool a' (np :: L)).
+    { intros a' Hn Hf. split; [lia|]. intros p. rewrite Hf, Hn. specialize (Hc p).
+      rewrite cnt_app in *. cbn [cnt] in *.
+      destruct (N.eqb_spec np p); destruct (N.leb_spec 1 p); destruct (N.ltb_spec p np);
+        destruct (N.ltb_spec p (np + 1)); cbn [andb] in *; lia. }
+    unfold data_len in *.
+    destruct (N.ltb_spec (offset a - 8) ((np + 1) * ps)).
+    + unfold alloc_offset. cbn [nextPage freeList leafKeys pagesFree curSz offset].
+      split; [apply Hpool; reflexivity|]. cbn [nextPage freeList leafKeys pagesFree curSz offset].
+      split; [exact Hlk|]. split; [rewrite Hpf; reflexivity|]. split; [lia|]. split; [|unfold data_len; cbn [offset]; lia].
+      apply buf_grow_ge. exact Ho2.
+    + split; [apply Hpool; reflexivity|]. cbn [nextPage freeList leafKeys pagesFree curSz offset].
+      split; [exact Hlk|]. split; [rewrite Hpf; reflexivity|]. unfold data_len; cbn [offset]. lia.
+  - cbn [fst snd]. split; [|cbn [nextPage freeList leafKeys pagesFree curSz offset length] in *; repeat split; auto; lia].
+    split; [exact H1|]. intros p. cbn [nextPage freeList]. specialize (Hc p).
+    rewrite cnt_app in *. cbn [cnt] in *. lia.
+Qed.
+
+Lemma add_leaf_keys_AInv ps a L n d n' : AInv ps a L n -> (Z.of_nat n + d)%Z = Z.of_nat n' ->
+  AInv ps (add_leaf_keys a d) L n'.
+Proof.
+  intros (Hp & Hlk & H) Hd. unfold add_leaf_keys. split; [exact Hp|]. cbn [leafKeys]. split; [lia|exact H].
+Qed.
+
+Lemma free_child_AInv ps a c L n : AInv ps a (pid_of c :: L) (n + num_keys c) ->
+  AInv ps (free_child a c) L n.
+Proof.
+  intros ((H1 & Hc) & Hlk & Hpf & H). unfold free_child. split; [split; [exact H1|]|].
+  - intros p. cbn [nextPage freeList]. specialize (Hc p). cbn [app cnt] in Hc. rewrite cnt_app in *. cbn [cnt]. lia.
+  - cbn [leafKeys pagesFree freeList length curSz offset nextPage]. split; [lia|]. split; [lia|exact H].
+Qed.
+
 Section WF.
   Variable M : nat.
   Hypothesis HM : (4 <= M)%nat.
@@ -479,7 +554,7 @@ Section WF.
     Variable rec : alloc -> tree -> option (alloc * tree * nat).
     Hypothesis Hrec : forall a c cap lo hi, (height c < f)%nat -> wf cap lo hi c ->
       exists a' c' rem, rec a c = Some (a', c', rem) /\ wf cap lo hi c' /\
-        (forall k, abs c' k = dbf ts (abs c k)) /\ (rem = O -> entries c' = [(hi, 0)]) /\
+        (forall k, abs c' k = dbf ts (abs c k)) /\ (rem = O -> c' = Leaf (pid_of c') [(hi, 0)]) /\
         (height c' <= height c)%nat /\ pid_of c' = pid_of c.
 
     Lemma compact_children_spec : forall cs a lo hi, wf_kids lo hi cs -> cs <> [] -> (hmax cs < f)%nat ->
@@ -512,7 +587,7 @@ Section WF.
           * intros k. rewrite ents_cons. rewrite (alookup_two lo ck hi _ _ k HrC HrR). rewrite Habs.
             destruct (N.leb_spec k ck).
             -- rewrite (alookup_out_low ck hi (ents rest) k HrR) by lia.
-               specialize (Habs1 k). unfold abs in Habs1. rewrite (Hrem H0) in Habs1.
+               specialize (Habs1 k). unfold abs in Habs1. rewrite (Hrem H0) in Habs1. cbn [entries] in Habs1.
                rewrite <- Habs1. unfold dbf. cbn. destruct (ck =? k); destruct (0 <? ts); reflexivity.
             -- reflexivity.
           * rewrite hmax_cons. lia.
@@ -530,7 +605,7 @@ Section WF.
 
   Lemma tcompact_spec ts f : forall a t cap lo hi, (height t < f)%nat -> wf cap lo hi t ->
     exists a' t' rem, tcompact f ts a t = Some (a', t', rem) /\ wf cap lo hi t' /\
-      (forall k, abs t' k = dbf ts (abs t k)) /\ (rem = O -> entries t' = [(hi, 0)]) /\
+      (forall k, abs t' k = dbf ts (abs t k)) /\ (rem = O -> t' = Leaf (pid_of t') [(hi, 0)]) /\
       (height t' <= height t)%nat /\ pid_of t' = pid_of t.
   Proof.
     induction f as [|f IH]; intros a t cap lo hi Hh Hwf; [lia|].
@@ -538,6 +613,7 @@ Section WF.
     - destruct (node_compact_spec lo es ts Hs Hne) as (Hs' & Hne' & Hmk' & Hab & Hrem & Hlen').
       destruct (node_compact es ts) as [es' rem]. cbn [fst snd] in *.
       eexists _, _, _. split; [reflexivity|]. split; [constructor; auto; lia|]. split; [|split; [|split]]; auto.
+      intros H0. cbn [pid_of]. rewrite (Hrem H0). reflexivity.
     - rewrite height_node in Hh.
       destruct (compact_children_spec ts f (tcompact f ts) IH cs a lo hi Hkids Hne ltac:(lia))
         as (a' & cs' & Hcc & Hk' & Hne' & Hlen' & Habs & Hhm).
@@ -706,5 +782,266 @@ Section WF.
         - destruct (tree_reset_spec ps st) as (st1 & H1 & H2 & H3). exists st1. split; [exact H1|]. split; [exact H2|exact H3]. }
       destruct Hstep as (st1 & Hs & Hwf1 & Habs1). rewrite Hs.
       apply (IH st1 (ref_step m o) Hwf1 Habs1 Hops).
+  Qed.
+
+  (* ---------- page accounting through the operations ---------- *)
+  Lemma split_pids t p q : cnt q (pids (fst (split_tree M t p)) ++ pids (snd (split_tree M t p))) = cnt q (p :: pids t).
+  Proof.
+    destruct t as [pid es|pid cs]; cbn [split_tree fst snd].
+    - cbn [pids app cnt]. lia.
+    - rewrite !pids_node.
+      assert (E : pidsk cs = pidsk (firstn (Nat.div2 M) cs) ++ pidsk (skipn (Nat.div2 M) cs))
+        by (rewrite <- pidsk_app, firstn_skipn; reflexivity).
+      rewrite E. cbn [app cnt]. rewrite !cnt_app. cbn [cnt]. rewrite ?cnt_app. lia.
+  Qed.
+
+  Ltac cnt_norm := rewrite ?pids_node, ?pidsk_app, ?pidsk_cons; cbn [app cnt]; rewrite ?cnt_app; cbn [cnt]; rewrite ?cnt_app.
+
+  Lemma tset_ainv ps f : forall a t k v lo hi a' t', (height t < f)%nat -> wf (M - 1) lo hi t -> lo < k <= hi ->
+    tset M ps f a t k v = Some (a', t') ->
+    forall R n, AInv ps a (pids t ++ R) (length (entries t) + n) -> AInv ps a' (pids t' ++ R) (length (entries t') + n).
+  Proof.
+    induction f as [|f IH]; intros a t k v lo hi a' t' Hh Hwf Hk Hts R n HA; [lia|].
+    inversion Hwf as [cap0 lo0 hi0 pid es Hs Hne Hmk Hlen|cap0 lo0 hi0 pid cs Hkids Hne Hlen]; subst.
+    - cbn [tset] in Hts. destruct (node_set_leaf_spec lo es k v Hs ltac:(lia)) as (_ & _ & _ & Hlen' & _ & _).
+      destruct (node_set wid es k v) as [es' added]. cbn [fst snd] in *. injection Hts as <- <-.
+      cbn [pids entries] in *. eapply add_leaf_keys_AInv; [exact HA|]. lia.
+    - destruct (wfk_route _ _ _ k Hkids Hk) as (pre & ck & c & post & lo' & -> & Hlt & Hpre & Hc & Hkc & Hpost).
+      rewrite height_node, hmax_app, hmax_cons in Hh.
+      destruct (tset_spec ps f a c k v lo' ck ltac:(lia) Hc Hkc) as (a2 & c' & Hrec & Hwf' & _ & _ & _).
+      rewrite tset_node_step in Hts by (auto; lia). rewrite Hrec in Hts.
+      set (R' := pid :: pidsk pre ++ pidsk post ++ R).
+      set (n' := (length (ents pre) + length (ents post) + n)%nat).
+      assert (HA2 : AInv ps a2 (pids c' ++ R') (length (entries c') + n')).
+      { eapply (IH a c k v lo' ck a2 c'); eauto; [lia|].
+        eapply AInv_perm; [| |exact HA].
+        - intros p. unfold R'. cnt_norm. lia.
+        - unfold n'. rewrite entries_node, ents_app, ents_cons, !app_length. lia. }
+      unfold is_full in Hts. destruct (Nat.eqb_spec (num_keys c') M) as [Hfull|Hnf].
+      + pose proof (new_node_AInv ps a2 _ _ HA2) as HA3.
+        destruct (new_node ps a2) as [a3 p]. cbn [fst snd] in HA3.
+        destruct (wf_split lo' ck c' p Hwf' Hfull) as (Hl & Hr & Hlk & Hent & _).
+        pose proof (split_pids c' p) as Hsp.
+        destruct (split_tree M c' p) as [l r]. cbn [fst snd] in *. cbv zeta in Hts.
+        rewrite (split_sets pre ck l r post c) in Hts; [|eapply wfk_keys_lt; [exact Hpre|lia]|lia|lia|eapply wf_tmax; exact Hr].
+        injection Hts as <- <-.
+        eapply AInv_perm; [| |exact HA3].
+        * intros q. specialize (Hsp q). unfold R'. cnt_norm. rewrite cnt_app in Hsp. cbn [cnt] in Hsp. lia.
+        * unfold n'. rewrite entries_node, ents_app, !ents_cons, !app_length, <- Hent, !app_length. lia.
+      + injection Hts as <- <-.
+        eapply AInv_perm; [| |exact HA2].
+        * intros q. unfold R'. cnt_norm. lia.
+        * unfold n'. rewrite entries_node, ents_app, ents_cons, !app_length. lia.
+  Qed.
+
+  Section CompactA.
+    Variable ps ts : N.
+    Variable f : nat.
+    Variable rec : alloc -> tree -> option (alloc * tree * nat).
+    Hypothesis Hrec : forall a c cap lo hi, (height c < f)%nat -> wf cap lo hi c ->
+      exists a' c' rem, rec a c = Some (a', c', rem) /\ wf cap lo hi c' /\
+        (forall k, abs c' k = dbf ts (abs c k)) /\ (rem = O -> c' = Leaf (pid_of c') [(hi, 0)]) /\
+        (height c' <= height c)%nat /\ pid_of c' = pid_of c.
+    Hypothesis HrecA : forall a c cap lo hi a' c' rem, (height c < f)%nat -> wf cap lo hi c ->
+      rec a c = Some (a', c', rem) ->
+      forall R n, AInv ps a (pids c ++ R) n -> AInv ps a' (pids c' ++ R) (length (entries c') + n).
+
+    Lemma compact_children_ainv : forall cs a lo hi a' cs', wf_kids lo hi cs -> (hmax cs < f)%nat ->
+      compact_children rec a cs = Some (a', cs') ->
+      forall R n, AInv ps a (pidsk cs ++ R) n -> AInv ps a' (pidsk cs' ++ R) (length (ents cs') + n).
+    Proof.
+      induction cs as [|[ck c] rest IH]; intros a lo hi a' cs' Hk Hh Hcc R n HA.
+      - cbn in Hcc. injection Hcc as <- <-. exact HA.
+      - inversion Hk as [|lo0 k0 c0 rest0 hi0 Hc Hrest]; subst. rewrite hmax_cons in Hh.
+        destruct (Hrec a c _ lo ck ltac:(lia) Hc) as (a1 & c1 & rem & Hr & Hwf1 & _ & Hrem & _ & _).
+        cbn [compact_children] in Hcc. rewrite Hr in Hcc.
+        rewrite pidsk_cons, <- app_assoc in HA.
+        pose proof (HrecA a c _ lo ck a1 c1 rem ltac:(lia) Hc Hr _ _ HA) as HA1.
+        destruct (Nat.eqb rem 0 && negb match rest with [] => true | _ :: _ => false end) eqn:Efree.
+        + apply andb_prop in Efree. destruct Efree as [E0 _]. apply Nat.eqb_eq in E0.
+          rewrite (Hrem E0) in HA1. cbn [pids entries length app] in HA1.
+          eapply (IH _ ck hi a' cs' Hrest ltac:(lia) Hcc).
+          apply free_child_AInv. rewrite (Hrem E0). cbn [pid_of num_keys length].
+          eapply AInv_perm; [| |exact HA1]; [reflexivity|lia].
+        + destruct (compact_children rec a1 rest) as [[a2 rest']|] eqn:Ecc; [|discriminate].
+          injection Hcc as <- <-.
+          assert (HA1' : AInv ps a1 (pidsk rest ++ pids c1 ++ R) (length (entries c1) + n)).
+          { eapply AInv_perm; [| |exact HA1]; [intros q; rewrite !cnt_app; lia|reflexivity]. }
+          pose proof (IH _ ck hi a2 rest' Hrest ltac:(lia) Ecc _ _ HA1') as HA2.
+          eapply AInv_perm; [| |exact HA2].
+          * intros q. rewrite pidsk_cons, !cnt_app. lia.
+          * rewrite ents_cons, app_length. lia.
+    Qed.
+  End CompactA.
+
+  Lemma tcompact_ainv ps ts f : forall a t cap lo hi a' t' rem, (height t < f)%nat -> wf cap lo hi t ->
+    tcompact f ts a t = Some (a', t', rem) ->
+    forall R n, AInv ps a (pids t ++ R) n -> AInv ps a' (pids t' ++ R) (length (entries t') + n).
+  Proof.
+    induction f as [|f IH]; intros a t cap lo hi a' t' rem Hh Hwf Htc R n HA; [lia|].
+    inversion Hwf as [cap0 lo0 hi0 pid es Hs Hne Hmk Hlen|cap0 lo0 hi0 pid cs Hkids Hne Hlen]; subst; cbn [tcompact] in Htc.
+    - destruct (node_compact es ts) as [es' rem']. injection Htc as <- <- <-. cbn [pids entries] in *.
+      eapply add_leaf_keys_AInv; [exact HA|]. lia.
+    - rewrite height_node in Hh.
+      destruct (compact_children (tcompact f ts) a cs) as [[a1 cs']|] eqn:Ecc; [|discriminate].
+      injection Htc as <- <- <-. rewrite pids_node in *. rewrite entries_node.
+      assert (HA' : AInv ps a (pidsk cs ++ pid :: R) n).
+      { eapply AInv_perm; [| |exact HA]; [intros q; cbn [app cnt]; rewrite !cnt_app; cbn [cnt]; lia|reflexivity]. }
+      pose proof (compact_children_ainv ps ts f (tcompact f ts) (tcompact_spec ts f) (IH) cs a lo hi a1 cs' Hkids ltac:(lia) Ecc _ _ HA') as HA2.
+      eapply AInv_perm; [| |exact HA2]; [intros q; cbn [app cnt]; rewrite !cnt_app; cbn [cnt]; lia|reflexivity].
+  Qed.
+
+  Lemma titer_shape fn f : forall t, pids (snd (titer f fn t)) = pids t /\
+                                     length (entries (snd (titer f fn t))) = length (entries t).
+  Proof.
+    induction f as [|f IH]; intros t; [split; reflexivity|].
+    destruct t as [pid es|pid cs]; cbn [titer snd].
+    - cbn [pids entries]. rewrite map_length. split; reflexivity.
+    - rewrite !pids_node, !entries_node. rewrite map_map. cbn [fst snd].
+      assert (H : pidsk (map (fun x => (fst x, snd (titer f fn (snd x)))) cs) = pidsk cs /\
+                  length (ents (map (fun x => (fst x, snd (titer f fn (snd x)))) cs)) = length (ents cs)).
+      { induction cs as [|[k c] r IHr]; [split; reflexivity|]. cbn [map fst snd].
+        rewrite !pidsk_cons, !ents_cons, !app_length. destruct IHr as [-> ->]. destruct (IH c) as [-> ->]. split; reflexivity. }
+      destruct H as [-> ->]. split; reflexivity.
+  Qed.
+
+  (* ---------- the full state invariant ---------- *)
+  Definition WFa ps (st : tstate) : Prop :=
+    AInv ps (al st) (pids (root st)) (length (entries (root st))) /\ pid_of (root st) = 1.
+  Definition WF ps (st : tstate) : Prop := WFt st /\ WFa ps st.
+
+  Lemma cnt_set_pid t p q : cnt q (pid_of t :: pids (set_pid t p)) = cnt q (p :: pids t).
+  Proof. destruct t; cbn [set_pid pid_of pids cnt]; lia. Qed.
+
+  Lemma tree_set_wfa ps st k v st' : WFt st -> WFa ps st -> valid_key k -> tree_set M ps st k v = Some st' -> WFa ps st'.
+  Proof.
+    intros [Hwf Hd] [HA Hp] Hk. unfold valid_key in Hk. unfold tree_set.
+    destruct (N.eqb_spec k 0); [lia|]. destruct (N.eqb_spec k (absolute_max + 1)); [unfold absolute_max in *; lia|].
+    cbn [orb].
+    destruct (tset_spec ps (S (depth st)) (al st) (root st) k v 0 absolute_max ltac:(lia) Hwf ltac:(lia))
+      as (a1 & r1 & Hrec & Hwf1 & _ & _ & Hp1).
+    rewrite Hrec.
+    assert (HA1 : AInv ps a1 (pids r1) (length (entries r1))).
+    { pose proof (tset_ainv ps (S (depth st)) (al st) (root st) k v 0 absolute_max a1 r1 ltac:(lia) Hwf ltac:(lia) Hrec [] O) as H.
+      rewrite !app_nil_r, !Nat.add_0_r in H. apply H. exact HA. }
+    unfold is_full. destruct (Nat.eqb_spec (num_keys r1) M) as [Hfull|Hnf].
+    - pose proof (new_node_AInv ps a1 _ _ HA1) as HA2. destruct (new_node ps a1) as [a2 pr]. cbn [fst snd] in HA2.
+      destruct (wf_split 0 absolute_max r1 pr Hwf1 Hfull) as (Hl & Hr & Hlk & Hent & Hhs & Hpl & Hpr).
+      pose proof (split_pids r1 pr) as Hsp.
+      destruct (split_tree M r1 pr) as [l0 r]. cbn [fst snd] in *.
+      pose proof (new_node_AInv ps a2 _ _ HA2) as HA3. destruct (new_node ps a2) as [a3 pl]. cbn [fst snd] in HA3.
+      rewrite tmax_set_pid. rewrite node_set_nil by lia.
+      rewrite (wf_tmax _ _ _ _ Hr). rewrite node_set_snoc1 by (unfold absolute_max in *; lia).
+      intros E. injection E as <-. split; cbn [root al pid_of]; [|congruence].
+      eapply AInv_perm; [| |exact HA3].
+      + intros q. specialize (Hsp q). pose proof (cnt_set_pid l0 pl q) as Hc.
+        rewrite pids_node. unfold pidsk. cbn [flat_map snd]. rewrite app_nil_r.
+        rewrite cnt_app in *. cbn [cnt] in *. rewrite cnt_app. rewrite Hpl in Hc. lia.
+      + rewrite entries_node. unfold ents. cbn [flat_map snd]. rewrite entries_set_pid, app_nil_r, Hent. reflexivity.
+    - intros E. injection E as <-. split; cbn [root al]; [exact HA1|congruence].
+  Qed.
+
+  Lemma tree_delete_below_wfa ps st ts st' : WFt st -> WFa ps st -> tree_delete_below st ts = Some st' -> WFa ps st'.
+  Proof.
+    intros [Hwf Hd] [HA Hp]. unfold tree_delete_below.
+    match goal with |- context [tcompact ?f ts ?a (root st)] =>
+      destruct (tcompact_spec ts f a (root st) _ _ _ ltac:(lia) Hwf) as (a' & t' & rem & Hc & _ & _ & _ & _ & Hp');
+      pose proof (tcompact_ainv ps ts f a (root st) _ _ _ a' t' rem ltac:(lia) Hwf Hc [] O) as HA' end.
+    rewrite Hc. intros E. injection E as <-. split; cbn [root al]; [|congruence].
+    rewrite !app_nil_r, Nat.add_0_r in HA'. apply HA'.
+    destruct HA as (Hpool & _ & H). split; [exact Hpool|]. split; [reflexivity|exact H].
+  Qed.
+
+  Lemma tree_iterate_wfa ps st fn : WFa ps st -> WFa ps (snd (tree_iterate st fn)).
+  Proof.
+    intros [HA Hp]. unfold tree_iterate.
+    destruct (titer_shape fn (S (depth st)) (root st)) as [H1 H2].
+    destruct (titer (S (depth st)) fn (root st)) as [vis r1] eqn:E. unfold WFa. cbv beta iota zeta. cbn [fst snd root al] in *.
+    split; [rewrite H1, H2; exact HA|].
+    destruct (root st), r1; cbn [pids pid_of] in *; congruence.
+  Qed.
+
+  Lemma init_root_wfa ps cur off st : 8 <= off -> off <= cur -> ps <= off - 8 ->
+    init_root M ps (mkAlloc 1 [] 0 0 cur off) = Some st -> WFa ps st.
+  Proof.
+    intros H8 Hoc Hps Hi.
+    destruct (init_root_spec ps (mkAlloc 1 [] 0 0 cur off)) as (st0 & p1 & p2 & Hi0 & Hr & _ & Hn1 & Hn2 & Hal).
+    rewrite Hi in Hi0. injection Hi0 as <-.
+    assert (HA0 : AInv ps (mkAlloc 1 [] 0 0 cur off) [] 0).
+    { split; [split; [cbn; lia|]|cbn [leafKeys pagesFree freeList length offset curSz nextPage]; unfold data_len; cbn [offset]; repeat split; lia].
+      intros p. cbn [app cnt nextPage freeList]. destruct (N.leb_spec 1 p); destruct (N.ltb_spec p 1); cbn [andb]; lia. }
+    pose proof (new_node_AInv ps _ _ _ HA0) as HA1. rewrite Hn1 in HA1. cbn [fst snd] in HA1.
+    pose proof (new_node_AInv ps _ _ _ HA1) as HA2. rewrite Hn2 in HA2. cbn [fst snd] in HA2.
+    assert (Hp1 : p1 = 1).
+    { apply (f_equal snd) in Hn1. unfold new_node in Hn1. cbn [freeList nextPage snd] in Hn1. congruence. }
+    split; [|rewrite Hr; cbn; exact Hp1].
+    rewrite Hr, Hal. cbn [init_tree pids entries flat_map snd app length].
+    eapply (add_leaf_keys_AInv ps _ _ 0 1 1); [|reflexivity].
+    eapply AInv_perm; [| |exact HA2]; [intros q; cbn [cnt]; lia|reflexivity].
+  Qed.
+
+  (* consequences read off the invariant *)
+  Lemma cnt_in p l : In p l -> (1 <= cnt p l)%nat.
+  Proof. induction l as [|x r IH]; cbn [In cnt]; [tauto|]. intros [->|H]; [rewrite N.eqb_refl; lia|apply IH in H; lia]. Qed.
+  Lemma NoDup_cnt l : (forall p, (cnt p l <= 1)%nat) -> NoDup l.
+  Proof.
+    induction l as [|x r IH]; intros H; constructor.
+    - intros Hin. apply cnt_in in Hin. specialize (H x). cbn [cnt] in H. rewrite N.eqb_refl in H. lia.
+    - apply IH. intros p. specialize (H p). cbn [cnt] in H. lia.
+  Qed.
+
+  Lemma wfa_pages ps st : WFa ps st ->
+    NoDup (pids (root st) ++ freeList (al st)) /\
+    (forall p, In p (pids (root st) ++ freeList (al st)) <-> 1 <= p < nextPage (al st)) /\
+    stat_leaf_keys st = Z.of_nat (length (entries (root st))) /\
+    stat_pages_free st = Z.of_nat (length (freeList (al st))).
+  Proof.
+    intros [((H1 & Hc) & Hlk & Hpf & _) _]. split; [|split; [|split; assumption]].
+    - apply NoDup_cnt. intros p. rewrite Hc. destruct ((1 <=? p) && (p <? nextPage (al st))); lia.
+    - intros p. specialize (Hc p). split.
+      + intros Hin. apply cnt_in in Hin. destruct (N.leb_spec 1 p); destruct (N.ltb_spec p (nextPage (al st))); cbn [andb] in Hc; lia.
+      + intros Hr. destruct (N.leb_spec 1 p); destruct (N.ltb_spec p (nextPage (al st))); cbn [andb] in Hc; try lia.
+        clear - Hc. induction (pids (root st) ++ freeList (al st)) as [|x r IH]; cbn [cnt] in Hc; [lia|].
+        destruct (N.eqb_spec x p); [left; assumption|right; apply IH; lia].
+  Qed.
+
+  Lemma tree_reset_buf_wfa ps cur st : ps <= 1048568 -> 8 <= cur -> tree_reset_buf M ps cur = Some st -> WFa ps st.
+  Proof.
+    intros Hps Hc. unfold tree_reset_buf, alloc_offset. cbn [nextPage freeList leafKeys pagesFree curSz offset].
+    apply init_root_wfa; [unfold min_size; lia|apply buf_grow_ge; exact Hc|unfold min_size; lia].
+  Qed.
+
+  Lemma tree_new_file_wfa ps st : ps <= 1048568 -> tree_new_file M ps = Some st -> WFa ps st.
+  Proof. intros Hps. unfold tree_new_file. apply init_root_wfa; unfold min_size; lia. Qed.
+
+  Lemma history_wf ps ops : ps <= 1048568 -> forall st, WF ps st -> Forall op_ok ops ->
+    exists st', run ps ops st = Some st' /\ WF ps st'.
+  Proof.
+    intros Hps. induction ops as [|o ops IH]; intros st [Hwf Hwa] Hok.
+    - exists st. split; [reflexivity|split; assumption].
+    - inversion Hok as [|o' ops' Ho Hops]; subst. unfold run. cbn [fold_left].
+      assert (Hstep : exists st1, step ps st o = Some st1 /\ WF ps st1).
+      { destruct o as [k v|ts|fn|]; cbn [step op_ok] in *.
+        - destruct (tree_set_spec ps st k v Hwf Ho) as (st1 & H1 & H2 & _). exists st1. split; [exact H1|].
+          split; [exact H2|]. exact (tree_set_wfa ps st k v st1 Hwf Hwa Ho H1).
+        - destruct (tree_delete_below_spec st ts Hwf) as (st1 & H1 & H2 & _). exists st1. split; [exact H1|].
+          split; [exact H2|]. exact (tree_delete_below_wfa ps st ts st1 Hwf Hwa H1).
+        - destruct (tree_iterate_spec st fn Hwf) as (H2 & _). eexists. split; [reflexivity|].
+          split; [exact H2|]. apply tree_iterate_wfa. exact Hwa.
+        - destruct (tree_reset_spec ps st) as (st1 & H1 & H2 & _). exists st1. split; [exact H1|].
+          split; [exact H2|]. unfold tree_reset in H1. eapply tree_reset_buf_wfa; [exact Hps| |exact H1].
+          destruct Hwa as [(_ & _ & _ & Ho8 & Hoc & _) _]. lia. }
+      destruct Hstep as (st1 & Hs & Hwf1). rewrite Hs. apply (IH st1 Hwf1 Hops).
+  Qed.
+
+  Lemma new_mem_wf ps : ps <= 1048568 -> exists st, tree_new_mem M ps = Some st /\ WF ps st.
+  Proof.
+    intros Hps. destruct (tree_new_mem_spec ps) as (st & H1 & H2 & _). exists st. split; [exact H1|].
+    split; [exact H2|]. eapply tree_reset_buf_wfa; [exact Hps| |exact H1]. unfold min_size. lia.
+  Qed.
+  Lemma new_file_wf ps : ps <= 1048568 -> exists st, tree_new_file M ps = Some st /\ WF ps st.
+  Proof.
+    intros Hps. destruct (tree_new_file_spec ps) as (st & H1 & H2 & _). exists st. split; [exact H1|].
+    split; [exact H2|]. eapply tree_new_file_wfa; eauto.
   Qed.
 End WF.
